@@ -4,6 +4,8 @@ use crate::Prop;
 pub mod c08;
 pub mod meta;
 pub mod modelprog;
+pub mod robust;
+pub mod store;
 
 pub fn make(id: &str) -> Option<Box<dyn Prop>> {
     match id {
@@ -14,6 +16,10 @@ pub fn make(id: &str) -> Option<Box<dyn Prop>> {
             let sid: &'static str = match id { "C04" => "C04", "C12" => "C12", "C13" => "C13", "C16" => "C16", _ => "C20" };
             Some(Box::new(meta::Meta { id: sid }))
         }
+        "C15" => Some(Box::new(store::C15)),
+        "C05" => Some(Box::new(store::C05)),
+        "C03" => Some(Box::new(robust::C03)),
+        "C18" => Some(Box::new(robust::C18)),
         "C08" => Some(Box::new(c08::C08::new())),
         _ => None,
     }
